@@ -214,9 +214,14 @@ package storage
 //@ func logreader.(*ShardCache).NodeDeleted
 //@   assumed
 //@   modifies nothing
+// (ghost nnotif: how often the cluster was told to fold the local raft report into its view; what a
+// call does is verified in storage/cluster: (*Cluster).Notify#view)
+//@ ghostfield any.nnotif Int
 //@ func cluster.(*Cluster).Notify
 //@   assumed
-//@   modifies nothing
+//@   params c
+//@   ensures c.nnotif == old(c.nnotif) + 1
+//@   modifies c.nnotif
 
 // the listener: the event put on the channel names the shard and the replica of the report
 //@ func (*events).LogCompacted
@@ -224,13 +229,38 @@ package storage
 //@   before send assert [C06.event.faithful] typeIs(sent, logCompacted) && asType(sent, logCompacted).ShardID == info.ShardID && asType(sent, logCompacted).ReplicaID == info.ReplicaID && sentTo == e.eventsCh
 //@   modifies family(CH_len)
 
+// leader and membership reports (C19): each is put on the event channel as an event of its own kind,
+// naming the shard and replica of the report; the dispatcher answers every one of them by telling the
+// cluster to refresh its view
+//@ func (*events).LeaderUpdated
+//@   requires e != nil && !chanClosed(e.eventsCh)
+//@   before send assert [C19.event.leader] typeIs(sent, leaderUpdated) && asType(sent, leaderUpdated).ShardID == info.ShardID && asType(sent, leaderUpdated).LeaderID == info.LeaderID && asType(sent, leaderUpdated).Term == info.Term && sentTo == e.eventsCh
+//@   modifies family(CH_len)
+//@ func (*events).MembershipChanged
+//@   requires e != nil && !chanClosed(e.eventsCh)
+//@   before send assert [C19.event.membership] typeIs(sent, membershipChanged) && asType(sent, membershipChanged).ShardID == info.ShardID && sentTo == e.eventsCh
+//@   modifies family(CH_len)
+//@ func (*events).NodeReady
+//@   requires e != nil && !chanClosed(e.eventsCh)
+//@   before send assert [C19.event.ready] typeIs(sent, nodeReady) && asType(sent, nodeReady).ShardID == info.ShardID && sentTo == e.eventsCh
+//@   modifies family(CH_len)
+//@ func (*events).NodeUnloaded
+//@   requires e != nil && !chanClosed(e.eventsCh)
+//@   before send assert [C19.event.unloaded] typeIs(sent, nodeUnloaded) && asType(sent, nodeUnloaded).ShardID == info.ShardID && sentTo == e.eventsCh
+//@   modifies family(CH_len)
+//@ func (*events).NodeDeleted
+//@   requires e != nil && !chanClosed(e.eventsCh)
+//@   before send assert [C06.event.deleted+C19] typeIs(sent, nodeDeleted) && asType(sent, nodeDeleted).ShardID == info.ShardID && asType(sent, nodeDeleted).ReplicaID == info.ReplicaID && sentTo == e.eventsCh
+//@   modifies family(CH_len)
+
 // the dispatcher: a compaction event of THIS node's replica invalidates the cache of exactly that shard
 //@ func (*events).dispatchEvents
 //@   maypanic
 //@   requires e != nil && e.engine != nil && e.engine.log != nil && e.engine.Cluster != nil
 //@   before logreader.(*ShardCache).LogCompacted assert [C06.event.shard] typeIs(evt, storage.logCompacted) && shardID == asType(evt, storage.logCompacted).ShardID
-//@   modifies family(CH_len), family(CH_closed), e.engine.LogCache.ncompact, e.engine.LogCache.lastCompact
+//@   modifies family(CH_len), family(CH_closed), e.engine.LogCache.ncompact, e.engine.LogCache.lastCompact, e.engine.Cluster.nnotif
 //@   loop 0 invariant e.engine == old(e.engine) && e.engine.LogCache == old(e.engine.LogCache) && e.engine.log != nil && e.engine.Cluster != nil
+//@   loop 0 step [C19.event.notify] typeIs(evt, leaderUpdated) || typeIs(evt, membershipChanged) || typeIs(evt, nodeReady) || typeIs(evt, nodeUnloaded) || typeIs(evt, nodeDeleted) ==> e.engine.Cluster.nnotif == prev(e.engine.Cluster.nnotif) + 1
 //@   loop 0 step [C06.event.dispatch] typeIs(evt, logCompacted) && asType(evt, logCompacted).ReplicaID == e.engine.cfg.NodeID && e.engine.LogCache != nil ==> e.engine.LogCache.ncompact == prev(e.engine.LogCache.ncompact) + 1 && e.engine.LogCache.lastCompact == asType(evt, logCompacted).ShardID
 
 // ---------------------------------------------------------------- acknowledged revision reaches the caller (C10)
@@ -278,9 +308,28 @@ package storage
 //@ import kv "github.com/jamf/regatta/storage/kv"
 //@ import dragonboat "github.com/lni/dragonboat/v4"
 //@ trustframe "fmt" "go.uber.org/zap"
-//@ func createNodeHost
+// createNodeHost: the node host is configured with the engine's event object as BOTH listeners - the
+// system listener is where log compactions and replica deletions are reported (C06), the raft listener
+// where leader changes are (C19) - and with the engine's own addresses and directories
+//@ import config "github.com/lni/dragonboat/v4/config"
+//@ import tan "github.com/lni/dragonboat/v4/plugin/tan"
+//@ func config.(*NodeHostConfig).Prepare
 //@   assumed
+//@   params c
+//@   modifies c.NodeHostDir, c.WALDir, c.ListenAddress, c.RaftAddress, c.DeploymentID
+//@ func config.GetSmallMemLogDBConfig
+//@   assumed
+//@   modifies nothing
+//@ func dragonboat.NewNodeHost
+//@   assumed
+//@   params nhConfig
 //@   results nh, err
+//@   ensures err == nil ==> nh != nil
+//@   modifies nothing
+//@ func createNodeHost
+//@   results nh, err
+//@   requires e != nil
+//@   before dragonboat.NewNodeHost assert [C06.wire.events+C19] typeIs(nhConfig.SystemEventListener, *storage.events) && asType(nhConfig.SystemEventListener, *storage.events) == e.events && typeIs(nhConfig.RaftEventListener, *storage.events) && asType(nhConfig.RaftEventListener, *storage.events) == e.events
 //@   ensures err == nil ==> nh != nil
 //@   modifies nothing
 //@ func dragonboat.(*NodeHost).ID
@@ -329,3 +378,15 @@ package storage
 //@   before dragonboat.(*NodeHost).Close assert [C14.close.order] chanClosed(e.stop) && chanClosed(e.Manager.closed)
 //@   ensures result == nil
 //@   modifies family(CH_closed)
+
+// ---------------------------------------------------------------- the local raft report the view is fed with (C19)
+
+// clusterInfo (the function cluster.New is given): the shard list is the node host's own, as it
+// reports it at the time of the call - unfiltered, unsorted, not cached
+//@ func (*Engine).clusterInfo
+//@   maypanic
+//@   requires e != nil && e.NodeHost != nil
+//@   before dragonboat.(*NodeHost).GetNodeHostInfo assert [C19.info.source] nh == e.NodeHost
+//@   ensures [C19.info.id] result.NodeID == e.cfg.NodeID
+//@   ensures [C19.info.list] world.lastNhi != nil ==> sameSlice(result.ShardInfoList, world.lastNhi.ShardInfoList)
+//@   modifies nothing
